@@ -165,7 +165,8 @@ def sensitivity(tier, base_seed, only=None):
             shutil.rmtree(scratch, ignore_errors=True)
     report["ok"] = ok
     os.makedirs(os.path.join(VERIF, "evidence"), exist_ok=True)
-    with open(os.path.join(VERIF, "evidence", "selftest-sensitivity.json"), "w") as f:
+    name = "selftest-sensitivity.json" if (only is None and tier == "thorough") else "selftest-sensitivity-partial.json"
+    with open(os.path.join(VERIF, "evidence", name), "w") as f:
         json.dump(report, f, indent=1)
     return 0 if ok else 1
 
